@@ -50,6 +50,7 @@ def observe_and_judge(rep, progs, optsets, family, tag, rng, variant_share=0.25)
             jobs.append({'id': '%s|%s|vAB' % (pid, on), 'p': p, 'variant': 0, 'opts': o, 'names': {'x': 'A', 'y': 'B'}})
             jobs.append({'id': '%s|%s|vABi' % (pid, on), 'p': p, 'variant': 0, 'opts': o, 'names': {'x': 'A', 'y': 'B'}, 'imports': True})
             jobs.append({'id': '%s|%s|vi' % (pid, on), 'p': p, 'variant': 0, 'opts': o, 'imports': True})
+            jobs.append({'id': '%s|%s|vABh' % (pid, on), 'p': p, 'variant': 0, 'opts': o, 'names': {'x': 'A', 'y': 'B'}, 'heavy': ['y']})
     obs = local.pmap(scopegen.observe, jobs, chunksize=64)
     rep.evaluations += len(obs)
     skipped = {}
